@@ -11,7 +11,7 @@ ALL_INVS = [
 ]
 
 
-def cfg_text(n, own, max_slot, invariants, dump, w=4, far=36000, constraint=None):
+def cfg_text(n, own, max_slot, invariants, dump, w=4, far=36000, constraint=None, sim_depth=0):
     s = f"""CONSTANTS
   N = {n}
   StakeVec <- SV
@@ -20,6 +20,7 @@ def cfg_text(n, own, max_slot, invariants, dump, w=4, far=36000, constraint=None
   FarFuture = {far}
   MaxSlot = {max_slot}
   Scenarios <- Scn
+  SimDepth = {sim_depth}
 INIT Init
 NEXT Next
 VIEW View
@@ -66,7 +67,7 @@ def scn(votes="{}", certs=(), blocks=(), waits=()):
 
 def run_model(ctx, name, stakes, own, max_slot, scenarios, invariants, relevant,
               sample=None, workers=8, dump=True, witnesses=(), timeout=1500, budget=0,
-              check_workers=12, max_div=60):
+              check_workers=12, max_div=60, constraint=None):
     """1. TLC checks the invariants on the model (all workers).
        2. TLC dumps every transition; the harness replays them into the real PoolImpl."""
     n = len(stakes)
@@ -74,7 +75,7 @@ def run_model(ctx, name, stakes, own, max_slot, scenarios, invariants, relevant,
     if witnesses:
         ctx.witness(name, "MC_Pool", cfg_text(n, own, max_slot, [], False), d, witnesses)
     # one TLC run: invariants evaluated in every state + every transition dumped for replay
-    r = ctx.tlc(name, "MC_Pool", cfg_text(n, own, max_slot, invariants, dump), d,
+    r = ctx.tlc(name, "MC_Pool", cfg_text(n, own, max_slot, invariants, dump, constraint=constraint), d,
                 workers=(workers if dump else check_workers), timeout=timeout)
     if not dump:
         return r, None
@@ -88,7 +89,7 @@ def run_model(ctx, name, stakes, own, max_slot, scenarios, invariants, relevant,
         args += ["--budget", budget]
     rep = ctx.harness(args)
     rep["model"] = name
-    if rep["edges"] != r2.generated - rep["init"]:
+    if not constraint and rep["edges"] != r2.generated - rep["init"]:
         raise ToolError(f"{name}: dump has {rep['edges']} edges, TLC generated {r2.generated}")
     if not sample and not budget and rep["div_count"] == 0 and rep["covered"] != rep["edges"]:
         raise ToolError(f"{name}: replay covered {rep['covered']} of {rep['edges']} edges")
@@ -128,3 +129,68 @@ def rel_c08(fp, fields):
 
 def rel_c18(fp, fields):
     return fp.startswith("standstill")
+
+
+# --------------------------------------------------------------------------- multi-slot scenarios
+FATES = ["F", "S", "FS", "N", "NS", "NFS", "K", "No", "U"]
+
+
+def chain_scenario(fates, waits=(), with_votes=(), voters=(0, 1), extra_certs=()):
+    """A consistent certificate universe over slots 1..len(fates).
+    fate of a slot:  F fast-finalized (notar+ff)   S slow-finalized (notar+final)
+      FS both (notar+ff+final)   N notarized, on chain   NS notarized then skipped (notar+skip)
+      NFS notar-fallback then skipped (nf+skip)   K skipped   No notarized off-chain (skip certificate
+      exists but is not delivered to this pool)   U nothing.
+    Blocks on the chain (F, S, FS, N) have the previous on-chain block as parent (genesis first).
+    with_votes: slots whose notar/final certificates are formed by votes of `voters` instead."""
+    certs, blocks, votes = [], [], []
+    parent = (0, "G")
+    for i, f in enumerate(fates):
+        s = i + 1
+        h = f"X{s}"
+        ks = {"F": ["notar", "ff"], "S": ["notar", "final"], "FS": ["notar", "ff", "final"],
+              "N": ["notar"], "NS": ["notar", "skip"], "NFS": ["nf", "skip"], "K": ["skip"],
+              "No": ["notar"], "U": []}[f]
+        for k in ks:
+            hh = h if k in ("notar", "nf", "ff") else "-"
+            if s in with_votes and k in ("notar", "final", "skip"):
+                for v in voters:
+                    votes.append(f'MkVote("{k}", {s}, "{hh}", {v})')
+            elif s in with_votes and k == "ff":
+                pass  # formed by the same notar votes when they reach 80%
+            else:
+                certs.append((k, s, hh))
+        if f in ("F", "S", "FS", "N"):
+            blocks.append(((s, h), parent))
+            parent = (s, h)
+        elif f in ("NS", "NFS", "No"):
+            # the block exists and may be registered, but is not an ancestor of later blocks
+            blocks.append(((s, h), parent))
+    certs += list(extra_certs)
+    vs = "{" + ", ".join(votes) + "}"
+    return scn(votes=vs, certs=certs, blocks=blocks, waits=waits)
+
+
+def run_sim(ctx, name, stakes, own, max_slot, scenarios, invariants, relevant, num, depth,
+            timeout=1500, max_div=60):
+    """TLC -simulate over a (large) model, every visited state printed; behaviours replayed."""
+    n = len(stakes)
+    d = defs(stakes, "<<" + ", ".join(scenarios) + ">>")
+    cfg = cfg_text(n, own, max_slot, invariants, False, sim_depth=depth) + "INVARIANT EmitSim\n"
+    r = ctx.tlc(name, "MC_Pool", cfg, d, workers=4, simulate=f"num={num}", timeout=timeout,
+                extra=["-depth", str(depth)])
+    ctx.exhaustive = False
+    args = ["replay-pool", "--sim", "--tlc-out", r.out_path, "--stakes", ",".join(map(str, stakes)),
+            "--own", own, "--max-slot", max_slot, "--seed", ctx.seed, "--max-div", max_div]
+    rep = ctx.harness(args)
+    rep["model"] = name
+    # simulation: count the distinct (depth, state, action) triples actually replayed
+    ctx.states += rep["nodes"]
+    ctx.transitions += rep["steps"]
+    ctx.replay_report(name, rep, relevant)
+    import os
+    try:
+        os.remove(r.out_path)
+    except OSError:
+        pass
+    return r, rep
